@@ -134,6 +134,38 @@ func rowsForField(a *An, vi visitIndex, ctx *Ctx, al *ssa.Alloc, field string) (
 				} else if kk, ok := ctx.constUint(b.X); ok {
 					k, other = kk, b.Y
 				} else {
+					// data-driven form: |= row.value under input & row.flag != 0, for a constant package table
+					expanded := false
+					for _, cand := range [][2]ssa.Value{{b.Y, b.X}, {b.X, b.Y}} {
+						g, vf, isT := tableElem(a.P, ctx.path(cand[0]))
+						if !isT || b.Op != token.OR {
+							continue
+						}
+						tab, okT := staticTable(a.P, g)
+						subj, ff, okG := tableGuard(a.P, vis.Local, g)
+						if !okT || !okG {
+							continue
+						}
+						for _, row := range tab {
+							kv, ok1 := constU(row[vf])
+							fv, ok2 := constU(row[ff])
+							if !ok1 || !ok2 {
+								return nil, fmt.Errorf("table %s has a non-integer row", g.Name())
+							}
+							at := &Atom{Subj: subj, Bits: fv}
+							if popcount(fv) == 1 {
+								at.Kind = AkBit
+							} else {
+								at.Kind = AkAny
+							}
+							rows = append(rows, Row{K: kv, Kind: "or", Cond: DNF{Conj{at.ID(): Lit{A: at}}}, Pos: a.P.instrPos(st) + " (table " + g.Name() + ")", In: st})
+						}
+						expanded = true
+						break
+					}
+					if expanded {
+						continue
+					}
 					return nil, fmt.Errorf("field %s combined with a non-constant at %s", field, a.P.instrPos(st))
 				}
 				// other must be a load of the same field of the same cell
@@ -318,8 +350,10 @@ func opNames(a *An) (names map[uint64]string, byName map[string]uint64) {
 	for n, m := range a.P.Main.Members {
 		if c, ok := m.(*ssa.NamedConst); ok && types.Identical(c.Type(), a.Ro.Op) {
 			if k, ok := constUint(c.Value); ok {
-				names[k] = n
 				byName[n] = k
+				if popcount(k) == 1 {
+					names[k] = n // the defined operations are the single-bit constants; combined masks are conveniences
+				}
 			}
 		}
 	}
